@@ -18,8 +18,14 @@ class CallMixin:
     # ------------------------------------------------------------------ entry
     def ev_Call(self, st, n):
         f = n.func
-        if any(isinstance(a, ast.Starred) for a in n.args[:-1]) or any(k.arg is None for k in n.keywords):
+        type_new = (isinstance(f, ast.Call) and isinstance(f.func, ast.Name) and f.func.id == "type" and not n.args and len(n.keywords) == 1
+                    and n.keywords[0].arg is None)
+        if any(isinstance(a, ast.Starred) for a in n.args[:-1]) or (any(k.arg is None for k in n.keywords) and not type_new):
             raise Unsupported(f"*args/**kwargs call at line {n.lineno}")
+        if (isinstance(f, ast.Call) and isinstance(f.func, ast.Name) and f.func.id == "type" and len(f.args) == 1 and not n.args
+                and len(n.keywords) == 1 and n.keywords[0].arg is None and "new_like" in self.reg.contracts):
+            # type(x)(**kwargs): a new object of the class of x built from a keyword table (external `new_like(x, kwargs)`)
+            return self.evseq(st, [f.args[0], n.keywords[0].value], lambda s, vs: self.apply_contract(s, "new_like", [vs[0], vs[1]], {}, n.lineno))
         if n.args and isinstance(n.args[-1], ast.Starred):
             # f(a, *xs): supported for callees under contract whose last parameter stands for their *varargs tuple
             star = n.args[-1]
